@@ -153,6 +153,9 @@ def gen_description(rng, force=None, hostile=True, child_types=None):
     layered = rng.random() < 0.3 or force == "layered"
     rel = {"name": tvalue(rng, hostile), "short": rng.choice(["F", "RHEL", "Fedora", text.word(rng, 1, 5), tvalue(rng, hostile)]),
            "version": tversion(rng, hostile), "is_layered": layered}
+    if force == "name-carries-version" or rng.random() < 0.06:
+        # 'CentOS Stream 9' / '9', 'openSUSE Leap 15.1' / '15.1': the release name already ends with the version
+        rel["name"] = rng.choice(["CentOS Stream", "openSUSE Leap", "X", rel["name"]]) + " " + rel["version"]
     bp = None
     if layered:
         bp = {"name": tvalue(rng, hostile), "short": rng.choice(["RHEL", "F", text.word(rng, 1, 5)]), "version": tversion(rng, hostile)}
@@ -232,6 +235,14 @@ def gen_description(rng, force=None, hostile=True, child_types=None):
             base = rng.choice(["Server", "Client", "Workstation", "X"])
             if base + "-optional" not in [x["uid"] for x in iter_nodes(variants)]:
                 v["id"], v["uid"], v["type"] = "optional", base + "-optional", "optional"
+    if force == "two-dashed-top-optionals" or (force is None and rng.random() < 0.05):
+        # several '$variant-optional' trees merged: top-level variants that SHARE the id 'optional' and differ in UID
+        for base in rng.sample(["Server", "Client", "Workstation", "X"], 2):
+            uid = base + "-optional"
+            if uid in [x["uid"] for x in iter_nodes(variants)]:
+                continue
+            paths = dict((k, tpath(rng, hostile)) for k in domains.TREE_PATH_KINDS if rng.random() < 0.4)
+            variants.append({"id": "optional", "uid": uid, "name": tvalue(rng, hostile), "type": "optional", "paths": paths, "children": []})
     if force == "dashed-top-variant":
         cands = [v for v in variants if not v["children"] and "-" not in v["uid"]]
         if not cands:
@@ -295,6 +306,8 @@ def gen_description(rng, force=None, hostile=True, child_types=None):
             stage2["instimage"] = rng.choice(["images/inst.img", tpath(rng, hostile)])
         if force == "stage2" and rng.random() < 0.3:
             stage2 = {"mainimage": None, "instimage": "images/only-inst.img"}
+        elif rng.random() < 0.25:
+            stage2["instimage"] = stage2["mainimage"]        # the obsolete key spelled out with the same image
     media = None
     if rng.random() < 0.3 or force == "media":
         total = rng.choice([1, 2, 3, 7, 10, 12, 100, 2 ** 31])
@@ -331,8 +344,12 @@ def classes_of(D):
     nodes = list(iter_nodes(D["variants"]))
     if len(D["variants"]) >= 10 or any(len(n["children"]) >= 10 for n in nodes):
         out.add("many-variants")
+    if D["release"]["name"].endswith(" " + D["release"]["version"]):
+        out.add("name-carries-version")
     if any("-" in v["uid"] and v["children"] for v in D["variants"]):
         out.add("dashed-top-with-children")
+    if len([v for v in D["variants"] if v["id"] == "optional" and v["uid"] != "optional"]) >= 2:
+        out.add("two-dashed-top-optionals")
     if D.get("media") and D["media"]["totaldiscs"] >= 10:
         out.add("media-ten-or-more")
     if len(D.get("checksums") or {}) >= 10:
